@@ -31,5 +31,7 @@ Definition run_str (s : list N) : list (event * span) * pend :=
   let '(toks, se) := scan_all str_ops F (4 * F + 20) (init_sc {| si_chars := s; si_look := 0 |}) [] in
   let p := {| p_toks := toks; p_token := None; p_states := []; p_state := SStreamStart;
               p_anchors := []; p_anchor_id := 1%N; p_tags := []; p_keep_tags := false |} in
-  parse_all (4 * F + 20) p se [].
+  (* the scanner delivers at most 4 * F + 20 tokens and the parser makes at most 4 * (number of tokens) + 1 steps
+     (Proofs/ScanFuelTop.v, ScanFuelParse.v) *)
+  parse_all (4 * (4 * F + 20) + 40) p se [].
 
